@@ -6,6 +6,8 @@ use crate::oracle::keccak256;
 use crate::probes::{Caller, CallerClient};
 use crate::world::*;
 use proptest::prelude::*;
+#[allow(unused_imports)]
+use crate::prop_oneof;
 use serde::{Deserialize, Serialize};
 use soroban_sdk::testutils::{Address as _, MockAuth, MockAuthInvoke};
 use soroban_sdk::{Address, Bytes, BytesN, IntoVal};
